@@ -42,12 +42,14 @@ TABLE = [
     ("C05", "Hypothesis generated operation histories (selector-based op lists) with a well-formedness invariant after every step",
      "Histories of <=12 operations over all 16 tier operations with arbitrary (also out-of-domain) arguments on dyadic and decimal "
      "timestamps; after every step every live tier must be sorted, disjoint, inside its span, trimmed and validate(); only "
-     "praatio errors may be raised for in-domain arguments.",
+     "praatio errors may be raised for in-domain arguments. Tiers obtained by opening files (rendered in the long, short and both "
+     "JSON layouts by the independent writer) must satisfy the same invariant.",
      _NOTE, "DESIGN.md section 3 C05"),
     ("C13", "Hypothesis generated histories and failing-argument cases with exact before/after snapshots (receiver, arguments, destination file bytes)",
      "Every tier and textgrid operation is called with generated (also failing) arguments; exact snapshots of receiver and arguments "
      "are compared before/after on the success and the exception path; mutators must be all-or-nothing; a failing save must "
-     "leave a pre-existing destination file byte-identical.",
+     "leave a pre-existing destination file byte-identical. Caller-owned lists (entry lists, name lists, sample series) and "
+     "receivers whose span is still (partly) unset are watched as well.",
      _NOTE, "DESIGN.md section 3 C13"),
     ("C14", "Hypothesis generated tier/reference pairs with a per-timestamp validity predicate (dejitter/align) and an exact-rational reference model (morph)",
      "References are built from the tier's own timestamps displaced by fractions and exact multiples of maxDifference (incl. "
@@ -103,7 +105,9 @@ TABLE = [
      "Synthetic KlattGrids (1-5 formants, 0-5 points per sub-tier, integer / 17-digit / tiny / huge / negative values) and the "
      "reference file are opened, saved and reopened: every in-memory number must equal the file's free-standing numbers (independent "
      "tokenizer) bit-for-bit, the reopened object must be identical and the written form a fixed point; modifications must apply f "
-     "exactly once to the addressed values; point objects must round-trip in short and long text.",
+     "exactly once to the addressed values (functions of several callable shapes); KlattGrids assembled with the public classes "
+     "(point lists possibly shared between tiers, sub-tiers with spans of their own) must round-trip too; point objects must "
+     "round-trip in short and long text.",
      _NOTE + " vlib/kgspec.py (writer in Praat's layout) is part of the trusted base.", "DESIGN.md section 3 C19"),
     ("C20", "exhaustive small-series enumeration (median filter) + Hypothesis generated series/listings vs textbook re-implementations",
      "medianFilter is enumerated over all series of length <=6 (thorough 8) over three values x windows 0..8 x padding and on random "
